@@ -713,21 +713,32 @@ func runNative(spec *Spec, cases []nativeCase) ([]nativeResult, error) {
 		replace[filepath.Join(repoDir, f)] = p
 	}
 	// time.Now() -> verif.Now() in the listed files (native runs only)
+	var modArgs []string
 	for i, f := range spec.ReplayRewrite {
-		src, err := os.ReadFile(filepath.Join(repoDir, f))
+		if strings.HasPrefix(f, "$GOMODCACHE/") {
+			// a file of a dependency module: the go command refuses overlays below GOMODCACHE, so the
+			// module is copied, rewritten and substituted with a replace directive (-modfile)
+			args, err := rewriteModuleFile(f, tmp)
+			if err != nil {
+				return nil, err
+			}
+			modArgs = args
+			continue
+		}
+		src, err := os.ReadFile(rewritePath(f))
 		if err != nil {
 			return nil, err
 		}
 		if s, ok := srcRewritten[f]; ok {
 			src = []byte(s)
 		}
-		out, err := rewriteTimeNow(string(src))
+		out, err := rewriteTimeNow(rewriteTimeCalls(string(src)))
 		if err != nil {
 			return nil, fmt.Errorf("%s: %v", f, err)
 		}
 		p := filepath.Join(tmp, fmt.Sprintf("rewrite%d.go", i))
 		os.WriteFile(p, []byte(out), 0o644)
-		replace[filepath.Join(repoDir, f)] = p
+		replace[rewritePath(f)] = p
 	}
 	if err := rewriteFuncStubs(spec, tmp, replace); err != nil {
 		return nil, err
@@ -739,7 +750,7 @@ func runNative(spec *Spec, cases []nativeCase) ([]nativeResult, error) {
 	casesPath := filepath.Join(tmp, "cases.json")
 	os.WriteFile(casesPath, cj, 0o644)
 	outPath := filepath.Join(tmp, "out.json")
-	cmd := exec.Command("go", "test", "-overlay", ovPath, "-vet=off", "-count=1", "-run", "^TestVerifReplay$", spec.TestPkg)
+	cmd := exec.Command("go", append(append([]string{"test", "-overlay", ovPath}, modArgs...), "-vet=off", "-count=1", "-run", "^TestVerifReplay$", spec.TestPkg)...)
 	cmd.Dir = repoDir
 	cmd.Env = append(goEnv(), "VERIF_CASES="+casesPath, "VERIF_OUT="+outPath, "GOCACHE="+nativeCache())
 	outb, err := cmd.CombinedOutput()
